@@ -1,5 +1,6 @@
 """shared generators / evaluators for the unordered back ends (C11, C12, C19, C20)"""
-import random, collections
+import random
+import sx, collections
 import core, sx
 from core import hbump
 
@@ -94,6 +95,57 @@ def umap_pairs(tier, seed):
 
 
 # ---------------------------------------------------------------- canonical forms
+
+def umap_multi_requests(tier, seed):
+    """pair lists with REPEATED keys (a `Vec<(K, V)>` used as a map-like collection): the count-carrying paths of the
+    comparison (`InsertMany` / `RemoveMany`) and of apply, which maps with unique keys never reach.  Only the
+    agreement of the model with the implementation is checked on these (the properties are stated for maps)."""
+    rnd = random.Random(seed + 313)
+    n = 200 if tier == 'quick' else 5000
+    out = []
+    def multi():
+        keys = [rnd.randrange(5) for _ in range(rnd.randrange(0, 9))]
+        same = rnd.random() < 0.6
+        vals = {}
+        l = []
+        for k in keys:
+            v = vals.setdefault(k, rnd.randrange(3)) if same else rnd.randrange(2)
+            l.append([k, v])
+        return l
+    for k in range(n):
+        p = multi()
+        c = multi() if rnd.random() < 0.6 else [list(x) for x in p if rnd.random() < 0.7] + ([[rnd.randrange(5), 0]] * rnd.randrange(0, 3))
+        out.append(sx.show(['umap-cmp', 'ko' if k % 2 else 'kv', p, c]))
+    return out
+
+
+def evaluate_umap_multi(res, binp):
+    import core as _core
+    reqs = umap_multi_requests(res.tier, res.seed)
+    rc, rows = _core.run_oracle(binp, reqs)
+    rc, out = _core.run_driver([r[0] for r in rows])
+    for row, m in zip(rows, out):
+        res.corr['evaluations'] += 1
+        _core.hbump(res, 'kind:umap-repeated-keys')
+        r = sx.parse(row[1]); mm = sx.parse(m)
+        if r[0] == 'panic':
+            res.corr['impl_failures'].append({'request': row[0][:3000], 'impl': row[1], 'what': 'map-like comparison / apply panicked on pair lists with repeated keys'}); continue
+        cd, md = canon_mdiff(r), canon_mdiff(mm)
+        if cd and cd[0] == 'Modify':
+            for ch in cd[1]:
+                _core.hbump(res, 'multi-change:' + ch[0])
+        dis = None
+        if cd != md:
+            dis = 'map diff differs (repeated keys)'
+        elif cd is not None:
+            a = sx.field(r, 'applied'); am = sx.field(mm, 'applied')
+            if a is None:
+                res.corr['impl_failures'].append({'request': row[0][:3000], 'impl': row[1][:400], 'what': 'applying the diff panicked (repeated keys)'}); continue
+            if sorted(pairs_of(a[0])) != sorted(pairs_of(am[0])):
+                dis = 'applied result differs (repeated keys)'
+        if dis:
+            res.corr['model_disagreements'].append({'request': row[0][:1500], 'impl': row[1][:500], 'model': m[:500], 'what': dis})
+
 
 def canon_uchange(c):
     """impl: (InsertFew (UnorderedArrayLikeChangeSpec (kv item 3) (kv count 4))) | (InsertSingle 3) ; model: (InsertFew 3 4)"""
